@@ -27,17 +27,22 @@ def sig_default_type(ev, mis):
 
 
 def sig_malformed_q(ev, mis):
+    """the header carries a range with a malformed q-value (dropped by the parser); the writer was found by the
+    substring lookup over the whole header: every written type occurs literally in the header and at least
+    one of them is outside Produces (with two such types the choice follows map iteration order)"""
     import re
-    if mis["clause"] != "C05.member" or len(ev["cts"]) != 1:
+    if mis["clause"] not in ("C05.member", "C05.deterministic") or not ev["cts"]:
         return False
-    ct = ev["cts"][0]
     malformed = False
     for part in ev["acc"].split(","):
         for prm in part.split(";")[1:]:
             kv = prm.split("=")
-            if len(kv) == 2 and kv[0].strip().lower() == "q" and not re.fullmatch(r"\d*\.?\d*", kv[1].strip()) or (len(kv) == 2 and kv[0].strip().lower() == "q" and kv[1].strip() in ("", ".")):
-                malformed = True
-    return malformed and ct not in ev["produces"] and ct in ev["acc"]
+            if len(kv) == 2 and kv[0].strip().lower() == "q":
+                v = kv[1].strip()
+                if v in ("", ".") or not re.fullmatch(r"\d*\.?\d*", v):
+                    malformed = True
+    outside = [ct for ct in ev["cts"] if ct not in ev["produces"]]
+    return malformed and bool(outside) and all(ct in ev["acc"] for ct in ev["cts"])
 
 
 FAM = {
